@@ -674,3 +674,67 @@ func init() {
 		Stubs:  append(append([]string{"sync.RWMutex: lock-state counters (no scheduler: interleavings are not explored; lock discipline is checked on every access of the registry maps)"}, stubCrypto...), stubErrors...),
 	})
 }
+
+func init() {
+	type pkgT struct {
+		key   string
+		rt    [][]int // RoundTrip / NoPanic tuples (up, idx, variant)
+		npExt [][]int // extra NoPanic-only tuples
+		seqUp []int
+		seqDn []int
+		last  map[int]bool // sequence arguments only allowed in last position (not self-delimiting by wire format)
+	}
+	var frag [][]int
+	for _, v := range []int{0, 1, 2, 5, 16, 64} {
+		frag = append(frag, []int{0, 4, v})
+	}
+	pk := []pkgT{
+		{key: "clocksync", rt: [][]int{{1, 0, 0}, {1, 1, 0}, {1, 2, 0}, {0, 0, 0}, {0, 1, 0}, {0, 2, 0}, {0, 3, 0}}, seqUp: []int{-1, 0, 1, 2}, seqDn: []int{-1, 0, 1, 2, 3}},
+		{key: "multicastsetup", rt: [][]int{{0, 0, 0}, {0, 1, 0}, {0, 2, 0}, {0, 3, 0}, {0, 4, 0}, {0, 5, 0}, {1, 0, 0}, {1, 1, 0}, {1, 1, 1}, {1, 1, 2}, {1, 1, 3}, {1, 1, 4}, {1, 2, 0}, {1, 3, 0}, {1, 4, 0}, {1, 4, 1}, {1, 5, 0}, {1, 5, 1}},
+			npExt: [][]int{{1, 1, 5}}, seqUp: []int{-1, 0, 1, 101, 201, 301, 401, 2, 3, 4, 104, 5, 105}, seqDn: []int{-1, 0, 1, 2, 3, 4, 5}},
+		{key: "fragmentation", rt: append([][]int{{1, 0, 0}, {1, 1, 0}, {1, 2, 0}, {1, 3, 0}, {0, 0, 0}, {0, 1, 0}, {0, 2, 0}, {0, 3, 0}}, frag...),
+			seqUp: []int{-1, 0, 1, 2, 3}, seqDn: []int{-1, 0, 1, 2, 3, 4, 104, 304}, last: map[int]bool{4: true, 104: true, 304: true}},
+		{key: "firmwaremanagement", rt: [][]int{{1, 0, 0}, {1, 1, 0}, {1, 2, 0}, {1, 3, 0}, {1, 4, 0}, {1, 4, 1}, {1, 5, 0}, {0, 0, 0}, {0, 1, 0}, {0, 1, 1}, {0, 2, 0}, {0, 3, 0}, {0, 4, 0}, {0, 4, 1}, {0, 5, 0}},
+			seqUp: []int{-1, 0, 1, 2, 3, 4, 104, 5}, seqDn: []int{-1, 0, 1, 101, 2, 3, 4, 104, 5}},
+	}
+	register(&PropSpec{
+		ID:   "C18",
+		Pkgs: []string{"clocksync", "multicastsetup", "fragmentation", "firmwaremanagement"},
+		Items: func(tier string, seed int64) []Item {
+			var it []Item
+			for _, p := range pk {
+				for _, t := range p.rt {
+					it = append(it, Item{PkgKey: p.key, Func: "VerifC18_RoundTrip", Shape: t})
+					it = append(it, Item{PkgKey: p.key, Func: "VerifC18_NoPanic", Shape: t})
+				}
+				for _, t := range p.npExt {
+					it = append(it, Item{PkgKey: p.key, Func: "VerifC18_NoPanic", Shape: t})
+				}
+				for up := 0; up <= 1; up++ {
+					set := p.seqDn
+					if up == 1 {
+						set = p.seqUp
+					}
+					for _, a := range set {
+						for _, b := range set {
+							if a == -1 && b == -1 {
+								continue
+							}
+							// a command that takes all remaining bytes by wire format (DataFragment) can only be last
+							if p.last[a] && b >= 0 {
+								continue
+							}
+							it = append(it, Item{PkgKey: p.key, Func: "VerifC18_Seq", Shape: []int{up, a, b}})
+						}
+					}
+				}
+			}
+			for w := 0; w < 5; w++ {
+				it = append(it, Item{PkgKey: "multicastsetup", Func: "VerifC18_Keys", Shape: []int{w}})
+			}
+			return it
+		},
+		Bounds: func(tier string) map[string]string { return map[string]string{} },
+		Stubs:  append(append([]string{}, stubCrypto...), stubErrors...),
+	})
+}
